@@ -96,7 +96,7 @@ Proof.
 Qed.
 
 Lemma unsafe_anc_some sn u a : unsafe_anc sn u = Some a -> broken_ancestor sn u a.
-Proof. unfold broken_ancestor, unsafe_anc. destruct (s_unsafe u); [auto|discriminate]. Qed.
+Proof. unfold broken_ancestor, unsafe_anc. rewrite anc_gate_spec. destruct (s_unsafe u); [auto|discriminate]. Qed.
 
 (* every candidate of the hand-written relation is a real cause *)
 Lemma cands_spec_real sn u c : In c (cands_spec sn u) -> cause_real sn u c.
